@@ -168,11 +168,13 @@ func funcRange(v []data.Value) data.Value {
 	if increment <= 0 {
 		panic(fmt.Errorf("range: the step must be positive, got %d", increment))
 	}
+	const maxInt = int(^uint(0) >> 1)
 	var indices data.List
-	var i = 0
 	for index := init; index < limit; index += increment {
 		indices = append(indices, data.Int(index))
-		i++
+		if index > maxInt-increment {
+			break // the next index would wrap around (and the loop never end)
+		}
 	}
 	return indices
 }
